@@ -380,6 +380,10 @@ def run(tier, seed, replay=None):
                 frag["functions"] += 1
                 frag["in_S2_fragment_no_try"] += parts[2] == "1"
                 frag["in_S3_fragment_with_try"] += parts[3] == "1"
+                if len(parts) >= 6:
+                    frag["range_theorem_fragment_okRE"] = frag.get("range_theorem_fragment_okRE", 0) + (parts[4] == "1")
+                    frag["range_theorem_WFLoc"] = frag.get("range_theorem_WFLoc", 0) + (parts[5] == "1")
+                    frag["range_theorem_applies"] = frag.get("range_theorem_applies", 0) + (parts[4] == "1" and parts[5] == "1")
     exec_out = run_cpython(instr)
     nviol_pairs, model_diffs, glue_bad, cpy_not_in_live = 0, 0, 0, 0
     hist = {"functions": 0, "with_findings": 0, "live_lines": 0, "cpython_executed_ids": 0, "constructs": {}}
